@@ -17,6 +17,16 @@
 //     reported      get_bin_efficiency(b) (where the class implements it) == undo(1)_b, and == the reference where one is known
 //     trivial       is_trivial() => apply and undo leave the data bit-for-bit unchanged
 //     path          whole-ProjData call == related-viewgrams calls
+// HISTORIES (hist=...): the object under test is not built once but has a past - it was built with OTHER factors (hist lists the
+// earlier states "spec/flags" separated by '>'), set up (flag g<k>: with another sampling - 0 only segment 0, 1 other span, 2 TOF <->
+// non-TOF, 3 same sampling - and another ExamInfo), used or not (flag u), then its factors were changed IN PLACE through the public
+// routes (bn::morph: crystal_efficiencies()/geometric_factors()/block_factors(), the ProjData of get_norm_proj_data_sptr(),
+// set_calibration_factor()/set_radionuclide(), the members of a chain) WITHOUT a new allocate()/new object, and set_up was called
+// again (flag m: on the two members of the chain directly instead of through the chain).  All clauses above are then checked
+// against the reference of the CURRENT factors, and additionally the object must behave like a freshly built object with the
+// current factors (history_* clauses: set_up result, accepted calls, undo(1), apply(labelling), get_bin_efficiency, is_trivial).
+// All histories with 1 earlier state (and 2 earlier states for the component tables / in the thorough tier) over the small factor
+// alphabets of hist_specs_for() are enumerated; every prefix of a history is itself a case, so the uses in between need no oracle.
 // Configurations STIR rejects with error() / Succeeded::no are counted, not failures.
 #include "vmc.h"
 #include "stir_small.h"
@@ -25,6 +35,7 @@
 #include "stir/recon_buildblock/find_basic_vs_nums_in_subsets.h"
 #include "stir/RelatedViewgrams.h"
 #include <limits>
+#include <array>
 
 using namespace stir;
 using bn::Vec;
@@ -91,13 +102,90 @@ static bool exec(World& w, const BinNormalisation& N, int path, Op op, const Vec
 struct Case
 {
   Geo g; int sy = 0; std::string spec; int sweep = 0;
-  std::string str() const { return g.str() + ";sy=" + vmc::str(sy) + ";norm=" + spec + ";sweep=" + vmc::str(sweep); }
+  std::string hist; // earlier states of the object ("" : built once), see the top of the file
+  std::string str() const { return g.str() + ";sy=" + vmc::str(sy) + ";norm=" + spec + ";sweep=" + vmc::str(sweep) + (hist.empty() ? "" : ";hist=" + hist); }
 };
+
+// one earlier state of a history
+struct Step
+{
+  std::string spec;
+  int alt = -1;         // -1: set up with the geometry and exam info of the case; 0..3: alternative (see alt_world)
+  bool use = false;     // the object is used after this set_up
+  bool members = false; // the NEXT set_up is done on the two members of the chain directly
+};
+static std::vector<Step> parse_hist(const std::string& h)
+{
+  std::vector<Step> out;
+  size_t pos = 0;
+  while (pos <= h.size())
+    {
+      size_t e = h.find('>', pos);
+      if (e == std::string::npos) e = h.size();
+      const std::string t = h.substr(pos, e - pos);
+      Step st;
+      const size_t sl = t.find('/');
+      st.spec = t.substr(0, sl);
+      if (sl != std::string::npos)
+        for (size_t i = sl + 1; i < t.size(); ++i)
+          {
+            if (t[i] == 'u') st.use = true;
+            else if (t[i] == 'm') st.members = true;
+            else if (t[i] == 'g' && i + 1 < t.size()) st.alt = t[++i] - '0';
+          }
+      if (!st.spec.empty()) out.push_back(st);
+      pos = e + 1;
+    }
+  return out;
+}
+// the geometry of alternative k for the case geometry g; false: not available
+static bool alt_geo(const Geo& g, int k, Geo& a)
+{
+  a = g;
+  const int md = g.md < 0 ? g.R - 1 : g.md;
+  switch (k)
+    {
+    case 0: if (md == 0 || g.span != 1) return false; a.md = 0; return true;                           // only segment 0
+    case 1: if (g.span == 1 && (g.R < 2 || md < 1)) return false; a.span = g.span == 1 ? 3 : 1; return true; // other axial compression
+    case 2: if (g.tof == 0) a.tof = 3; return true;                                 // TOF data: its non-TOF clone (pdi_override); else a TOF scanner
+    case 3: return true;                                                            // same sampling, other exam info
+    default: return false;
+    }
+}
+// world of alternative k; every alternative has another ExamInfo (energy window) than the case
+static std::unique_ptr<World> alt_world(vmc::Ctx& ctx, const World& w, int k)
+{
+  std::unique_ptr<World> a(new World(ctx));
+  if (!alt_geo(w.g, k, a->g)) return nullptr;
+  a->sy = w.sy;
+  if (k == 2 && w.tof) a->pdi_override = w.b.pdi->create_non_tof_clone();
+  a->setup();
+  ExamInfo ex(*a->exam);
+  ex.set_low_energy_thres(350.F);
+  ex.set_high_energy_thres(650.F);
+  a->exam.reset(new ExamInfo(ex));
+  return a;
+}
+static bool do_set_up(BinNormalisation& N, bool members, const shared_ptr<ExamInfo>& exam, const shared_ptr<ProjDataInfo>& pdi, std::string& what)
+{
+  bool ok = false;
+  what.clear();
+  const bool thrown = small::throws(
+      [&] {
+        if (!members) { ok = N.set_up(exam, pdi) == Succeeded::yes; return; }
+        ChainedBinNormalisation& ch = dynamic_cast<ChainedBinNormalisation&>(N);
+        ok = ch.get_first_norm()->set_up(exam, pdi) == Succeeded::yes;
+        ok = (ch.get_second_norm()->set_up(exam, pdi) == Succeeded::yes) && ok;
+      },
+      &what);
+  return !thrown && ok;
+}
 
 static void run_case(vmc::Ctx& ctx, const Case& c)
 {
   const std::string kase = c.str();
-  ctx.current("norm_spec=" + c.spec.substr(0, 1), kase);
+  const bool hist = !c.hist.empty();
+  ctx.current(std::string(hist ? "history;" : "") + "norm_spec=" + c.spec.substr(0, 1), kase);
   World w(ctx);
   w.g = c.g; w.sy = c.sy;
   std::string what;
@@ -106,26 +194,106 @@ static void run_case(vmc::Ctx& ctx, const Case& c)
   if (small::throws([&] { bnm = bn::build(w, c.spec); }, &what)) { ctx.count("rejected_constructions"); ctx.observe("construction of " + c.spec + " rejected: " + what.substr(0, 120)); return; }
   if (bnm.skipped) { ctx.count("not_applicable_specs"); return; }
   const bn::Ref& r = bnm.r;
-  BinNormalisation& N = *bnm.n;
   const size_t nb = w.nb;
-  const std::string keytail0 = ";norm=" + r.sig + ";sym=" + (c.sy == 0 ? "none" : "pet") + ";tof=" + vmc::str((int)w.tof);
   Vec X1(nb, 1.0), XL(nb), y;
   for (size_t i = 0; i < nb; ++i) XL[i] = 1 + (double)((i * 5) % 13);
 
+  // ---- history: the object under test is the one built for the FIRST state, taken through the earlier states; bnm.n stays fresh
+  shared_ptr<BinNormalisation> obj = bnm.n, fresh;
+  std::string route; // class of the history for the violation keys: what changed between the set_ups
+  bool final_via_members = false, hist_nonunit = false;
+  if (hist)
+    {
+      const std::vector<Step> steps = parse_hist(c.hist);
+      if (steps.empty()) { ctx.count("not_applicable_specs"); return; }
+      bn::BuiltNorm first;
+      if (small::throws([&] { first = bn::build(w, steps[0].spec); }, &what)) { ctx.count("rejected_constructions"); ctx.observe("construction of " + steps[0].spec + " rejected: " + what.substr(0, 120)); return; }
+      if (first.skipped) { ctx.count("not_applicable_specs"); return; }
+      fresh = bnm.n;
+      obj = first.n;
+      hist_nonunit = first.r.nonunit;
+      bool r_factors = false, r_geometry = false, r_exam = false, r_members = false;
+      std::map<int, std::unique_ptr<World>> alts;
+      for (size_t k = 0; k < steps.size(); ++k)
+        {
+          const Step& st = steps[k];
+          World* wk = &w;
+          if (st.alt >= 0)
+            {
+              if (!alts.count(st.alt))
+                {
+                  std::unique_ptr<World> a;
+                  if (small::throws([&] { a = alt_world(ctx, w, st.alt); }, &what) || !a) { ctx.count("history_alternative_geometry_not_available"); ctx.observe("alternative geometry " + vmc::str(st.alt) + " of " + c.g.str() + " sy=" + vmc::str(c.sy) + " not available: " + what.substr(0, 100)); return; }
+                  alts[st.alt] = std::move(a);
+                }
+              wk = alts[st.alt].get();
+              (st.alt == 3 ? r_exam : r_geometry) = true;
+            }
+          const bool via_members = k > 0 && steps[k - 1].members;
+          r_members = r_members || via_members;
+          const bool ok = do_set_up(*obj, via_members, wk->exam, wk->b.pdi, what);
+          ctx.count(ok ? "history_earlier_set_ups_accepted" : "history_earlier_set_ups_rejected");
+          if (ok && st.use)
+            {
+              // a use in between: no oracle here (this prefix is a case of its own); it only has to leave no trace
+              Vec x1(wk->nb, 1.0), xl(wk->nb);
+              for (size_t i = 0; i < wk->nb; ++i) xl[i] = 1 + (double)((i * 5) % 13);
+              const bool a0 = exec(*wk, *obj, 0, UNDO, x1, y, what);
+              const bool a1 = exec(*wk, *obj, 1, APPLY_UNDO, xl, y, what);
+              float v = 0; bool t = false;
+              small::throws([&] { v = obj->get_bin_efficiency(wk->bi->bins[wk->nb / 2]); t = obj->is_trivial(); }, &what);
+              (void)v; (void)t;
+              ctx.count((a0 || a1) ? "history_uses_in_between_accepted" : "history_uses_in_between_rejected");
+            }
+          const std::string& next = k + 1 < steps.size() ? steps[k + 1].spec : c.spec;
+          if (next != st.spec) { r_factors = true; ctx.count("history_factor_changes:" + r.sig); }
+          bool bad = false;
+          try { bn::morph(w, *obj, st.spec, next); }
+          catch (const bn::HarnessError& e) { bad = true; what = e.what(); }
+          if (bad) { ctx.count("not_applicable_specs"); ctx.observe("history not executable: " + what.substr(0, 120)); return; }
+          ctx.count("history_steps");
+        }
+      final_via_members = steps.back().members;
+      r_members = r_members || final_via_members;
+      route = std::string(r_factors ? "factors" : "repeat") + (r_geometry ? "+geometry" : "") + (r_exam ? "+exam" : "") + (r_members ? "+members" : "");
+      ctx.count("history_units");
+      ctx.count("history_units:" + route);
+      ctx.maxi("max_history_set_ups", (long long)steps.size() + 1);
+    }
+  BinNormalisation& N = *obj;
+  // keys of history cases: class(es) of the object and what changed between the set_ups (symmetry object, TOF and call path are in the case)
+  std::string hsig = r.sig;
+  if (hist && r.leaves > 1)
+    {
+      std::set<std::string> ks(r.kinds.begin(), r.kinds.end());
+      hsig = "chain_of";
+      for (const std::string& k : ks) hsig += (hsig == "chain_of" ? "_" : "+") + k;
+    }
+  const std::string keytail0 = hist ? ";norm=" + hsig + ";hist=" + route : ";norm=" + r.sig + ";sym=" + (c.sy == 0 ? "none" : "pet") + ";tof=" + vmc::str((int)w.tof);
+
   // ---- use before set_up: the statement is silent; recorded, never a violation
-  if (r.leaves == 1)
+  if (r.leaves == 1 && !hist)
     {
       const bool thrown = !exec(w, N, 1, UNDO, X1, y, what);
       ctx.count(std::string(thrown ? "use_before_set_up_rejected:" : "use_before_set_up_accepted:") + r.sig);
       if (!thrown && r.sig != "trivial") ctx.observe("undo() before set_up() is accepted by " + r.sig);
     }
   // ---- set_up
-  bool ok = false;
-  if (small::throws([&] { ok = N.set_up(w.exam, w.b.pdi) == Succeeded::yes; }, &what) || !ok)
+  const bool set_up_ok = do_set_up(N, final_via_members, w.exam, w.b.pdi, what);
+  bool fresh_ok = false;
+  if (hist)
+    {
+      std::string whatf;
+      fresh_ok = do_set_up(*fresh, false, w.exam, w.b.pdi, whatf);
+      if (fresh_ok && !set_up_ok)
+        ctx.violation("clause=history_set_up_rejected" + keytail0, kase, "set_up is rejected after the history " + c.hist + " although a freshly built object with the same factors accepts it: " + what.substr(0, 120));
+      if (!fresh_ok && set_up_ok) ctx.observe("set_up accepted after a history although a freshly built " + r.sig + " rejects it (" + whatf.substr(0, 80) + ")");
+    }
+  if (!set_up_ok)
     {
       ctx.count("rejected_configs");
       ctx.count("rejected_set_up:" + r.sig);
-      if (r.leaves == 1) ctx.observe("set_up rejected: " + r.sig + " on tof=" + vmc::str((int)w.tof) + " span=" + vmc::str(c.g.span) + " mash=" + vmc::str(c.g.mash) + (ok ? "" : (": " + what.substr(0, 100))));
+      if (r.leaves == 1 && !hist) ctx.observe("set_up rejected: " + r.sig + " on tof=" + vmc::str((int)w.tof) + " span=" + vmc::str(c.g.span) + " mash=" + vmc::str(c.g.mash) + (what.empty() ? "" : (": " + what.substr(0, 100))));
       return;
     }
   // ---- efficiencies the object reports
@@ -181,9 +349,11 @@ static void run_case(vmc::Ctx& ctx, const Case& c)
   bool any_accepted = false;
   Vec undoL[2];
   bool haveL[2] = { false, false };
+  Vec U1[2], AL[2]; // history cases: undo(1) and apply(labelling data) of the object under test, per path
+  bool acc[2] = { false, false }, haveAL[2] = { false, false };
   for (int path = 0; path < 2; ++path)
     {
-      const std::string keytail = keytail0 + ";path=" + PATHN[path];
+      const std::string keytail = hist ? keytail0 : keytail0 + ";path=" + PATHN[path];
       auto viol = [&](const std::string& clause, const std::string& msg) { ctx.violation("clause=" + clause + keytail, kase, msg); };
       // generic comparison of one execution; returns false if something was reported
       // mode UNDO: expect x*eff ; APPLY: x/eff where eff != 0 ; round trips: x where eff != 0
@@ -243,6 +413,8 @@ static void run_case(vmc::Ctx& ctx, const Case& c)
           continue;
         }
       any_accepted = true;
+      acc[path] = true;
+      U1[path] = u1;
       ctx.count(std::string("accepted_calls:") + PATHN[path]);
       for (size_t i = 0; i < nb; ++i)
         if (!(u1[i] >= 0) || !std::isfinite(u1[i]))
@@ -292,6 +464,7 @@ static void run_case(vmc::Ctx& ctx, const Case& c)
         {
           if (!exec(w, N, path, op, XL, y, what)) { viol("throws_after_accepting", "an operation throws although undo(1) was accepted: " + what.substr(0, 120)); break; }
           check(op, XL, y, u1, "labelling data");
+          if (op == APPLY) { AL[path] = y; haveAL[path] = true; }
           if (op == APPLY && trivial) check_trivial("apply", y);
         }
       if (exec(w, N, path, APPLY, X1, y, what)) check(APPLY, X1, y, u1, "all ones");
@@ -324,12 +497,65 @@ static void run_case(vmc::Ctx& ctx, const Case& c)
                         "undo of the labelling data at bin " + small::bin_str(w.bi->bins[i]) + ": whole ProjData call gives " + vmc::str(undoL[0][i]) + ", related-viewgrams call gives " + vmc::str(undoL[1][i]));
           break;
         }
+  // ---- history: the object must be indistinguishable from a freshly built object with the current factors
+  if (hist && fresh_ok)
+    {
+      BinNormalisation& F = *fresh;
+      const double tolH = 2 * tol_chain + (r.atten ? 2e-5 : 0.0); // same code on the same numbers; attenuation: cached / uncached rows may be summed in another order
+      auto differs = [&](double a, double b) { return !(a == b) && !(std::fabs(a - b) <= tolH * std::fabs(b)) && (std::isfinite(a) || std::isfinite(b)); };
+      ctx.count("history_fresh_object_comparisons");
+      bool trivialF = false;
+      if (small::throws([&] { trivialF = F.is_trivial(); }, &what)) trivialF = false;
+      if (trivialF != trivial)
+        ctx.violation("clause=history_is_trivial_differs_from_fresh" + keytail0, kase, std::string("is_trivial() is ") + (trivial ? "true" : "false") + " after the history " + c.hist + " but " + (trivialF ? "true" : "false") + " for a freshly built object with the same factors");
+      bool reportsF = true;
+      for (size_t i = 0; i < nb && reportsF; ++i)
+        {
+          float v = 0;
+          if (small::throws([&] { v = F.get_bin_efficiency(w.bi->bins[i]); }, &what)) { reportsF = false; break; }
+          ctx.count("history_reported_efficiencies_compared_with_fresh");
+          if (reports && differs(gbe[i], v))
+            {
+              ctx.violation("clause=history_reported_efficiency_differs_from_fresh" + keytail0, kase, "get_bin_efficiency(" + small::bin_str(w.bi->bins[i]) + ") = " + vmc::str(gbe[i]) + " after the history " + c.hist + ", " + vmc::str(v) + " for a freshly built object with the same factors");
+              break;
+            }
+        }
+      if (reportsF != reports) ctx.violation("clause=history_reported_efficiency_differs_from_fresh" + keytail0, kase, std::string("get_bin_efficiency ") + (reports ? "answers" : "throws") + " after the history " + c.hist + " but " + (reportsF ? "answers" : "throws") + " for a freshly built object");
+      for (int path = 0; path < 2; ++path)
+        {
+          const std::string& keytail = keytail0;
+          Vec uf, af;
+          const bool accF = exec(w, F, path, UNDO, X1, uf, what);
+          if (accF && !acc[path]) { ctx.violation("clause=history_call_rejected" + keytail, kase, "undo(1) is rejected after the history " + c.hist + " although a freshly built object with the same factors accepts it"); continue; }
+          if (!accF && acc[path]) { ctx.observe("a call is accepted after a history although a freshly built " + r.sig + " rejects it: " + what.substr(0, 80)); continue; }
+          if (!accF) continue;
+          for (size_t i = 0; i < nb; ++i)
+            {
+              ctx.count("history_bins_compared_with_fresh");
+              if (differs(U1[path][i], uf[i]))
+                {
+                  ctx.violation("clause=history_undo_differs_from_fresh" + keytail, kase, "undo(1) at bin " + small::bin_str(w.bi->bins[i]) + " = " + vmc::str(U1[path][i]) + " after the history " + c.hist + ", " + vmc::str(uf[i]) + " for a freshly built object with the same factors");
+                  break;
+                }
+            }
+          if (haveAL[path] && exec(w, F, path, APPLY, XL, af, what))
+            for (size_t i = 0; i < nb; ++i)
+              {
+                ctx.count("history_bins_compared_with_fresh");
+                if (differs(AL[path][i], af[i]))
+                  {
+                    ctx.violation("clause=history_apply_differs_from_fresh" + keytail, kase, "apply(labelling data) at bin " + small::bin_str(w.bi->bins[i]) + " = " + vmc::str(AL[path][i]) + " after the history " + c.hist + ", " + vmc::str(af[i]) + " for a freshly built object with the same factors");
+                    break;
+                  }
+              }
+        }
+    }
   if (any_accepted)
     {
       ctx.count("units_accepted");
       for (const std::string& k : r.kinds) ctx.count("accepted_units_with:" + k);
       if (r.leaves > 1) ctx.count("accepted_chains_of_" + vmc::str(r.leaves));
-      if (r.nonunit) ctx.nontrivial(kase);
+      if (r.nonunit || (hist && (hist_nonunit || route.find("factors") == 0))) ctx.nontrivial(kase);
       ctx.maxi("max_bins", (long long)nb);
       ctx.maxi("max_chain_members", r.leaves);
       if (ctx.samples.size() < 6 && r.leaves >= 2 && c.sy > 1)
@@ -399,12 +625,142 @@ static void specs_for(const Geo& g, int sy, bool th, std::vector<std::pair<std::
           }
 }
 
+// histories: (final spec, earlier states); simplest first.  Factor alphabets per leaf kind (first letter = the set used in chains):
+//   P/Q {0 labelling A, i all ones, 1 labelling B}, S {0, 1}, C efficiencies only {e labelling A, 1 all ones, b labelling B, z dead crystal},
+//   C three components {a,1,b}^3 reached from aaa / 111 by changing ONE component or all, W {0, 1, r, z} (table, calibration factor,
+//   branching ratio; 1 -> r changes the radionuclide only), T / A / D / B one state (repeated set_up, other geometry / exam info only)
+static void hist_specs_for(const Geo& g, int sy, bool th, std::vector<std::array<std::string, 2>>& out)
+{
+  g34::Built b = g34::build(g);
+  const bool tof = b.pdi->get_num_tof_poss() > 1;
+  const bool comp_ok = !tof && g.span == 1 && g.mash == 1;
+  std::string why;
+  const bool geo_ok = comp_ok && bn::block_tables_cover_all_bins(*b.sc, *b.pdi, why);
+  const int md = g.md < 0 ? g.R - 1 : g.md;
+  const bool big = !tof && g.span == 1 && md < g.R - 1;
+  std::vector<int> alts;
+  for (int k = 0; k < 4; ++k) { Geo a; if (alt_geo(g, k, a)) alts.push_back(k); }
+  auto step = [](const std::string& spec, int alt, bool use, bool members = false) {
+    return spec + "/" + (alt >= 0 ? "g" + vmc::str(alt) : std::string()) + (use ? "u" : "") + (members ? "m" : "");
+  };
+  auto add = [&](const std::string& fin, const std::string& h) { out.push_back({ fin, h }); };
+  struct Fam { std::string kind; std::vector<std::string> args; };
+  std::vector<Fam> fams;
+  if (comp_ok) fams.push_back({ "C", { "e", "1", "b", "z" } });
+  fams.push_back({ "P", { "0", "i", "1" } });
+  if (tof) fams.push_back({ "Q", { "0", "i", "1" } });
+  if (big) fams.push_back({ "S", { "0", "1" } });
+  fams.push_back({ "W", { "0", "1", "r", "z" } });
+  fams.push_back({ "T", { "" } });
+  if (!tof) { fams.push_back({ "A", { "1" } }); fams.push_back({ "B", { "0" } }); if (th) fams.push_back({ "D", { "1" } }); }
+  // ---- one earlier state, leaves: every ordered pair of factor sets (also the same twice) x {no use, use} in the geometry of the
+  //      case; earlier set_up with every alternative geometry / exam info (quick: with a use; thorough: both)
+  for (const Fam& f : fams)
+    for (const std::string& a0 : f.args)
+      for (const std::string& a1 : f.args)
+        {
+          for (int use = 0; use < 2; ++use) add(f.kind + a1, step(f.kind + a0, -1, use));
+          for (int k : alts)
+            for (int use = th ? 0 : 1; use < 2; ++use) add(f.kind + a1, step(f.kind + a0, k, use));
+        }
+  // ---- three component tables: change exactly ONE of them (to each other letter), or all
+  std::vector<std::array<std::string, 2>> comp3; // (from, to)
+  if (geo_ok)
+    {
+      const std::string letters = "a1b";
+      for (const std::string& s0 : { std::string("aaa"), std::string("111") })
+        {
+          comp3.push_back({ s0, s0 });
+          for (int comp = 0; comp < 3; ++comp)
+            for (char l : letters)
+              if (l != s0[comp]) { std::string t = s0; t[comp] = l; comp3.push_back({ s0, t }); }
+          for (char l : letters)
+            if (l != s0[0]) comp3.push_back({ s0, std::string(3, l) });
+        }
+      for (auto& ft : comp3)
+        {
+          for (int use = 0; use < 2; ++use) add("C" + ft[1], step("C" + ft[0], -1, use));
+          if (ft[0] == ft[1] || ft[1][0] == ft[1][1]) // alternative geometries: repeated set_up and "all changed"
+            for (int k : alts) add("C" + ft[1], step("C" + ft[0], k, true));
+        }
+    }
+  // ---- two earlier states
+  for (const Fam& f : fams)
+    {
+      if (f.args.size() < 2 || !(th || f.kind == "C")) continue;
+      const size_t n = th ? f.args.size() : 3;
+      for (size_t i0 = 0; i0 < n; ++i0)
+        for (size_t i1 = 0; i1 < n; ++i1)
+          for (size_t i2 = 0; i2 < n; ++i2)
+            for (int u0 = 0; u0 < 2; ++u0)
+              for (int u1 = 0; u1 < 2; ++u1)
+                add(f.kind + f.args[i2], step(f.kind + f.args[i0], -1, u0) + ">" + step(f.kind + f.args[i1], -1, u1));
+    }
+  if (geo_ok)
+    for (auto& ft : comp3)
+      {
+        if (ft[0] != "aaa" || ft[1] == ft[0]) continue;
+        for (auto& ft2 : comp3)
+          {
+            // second change: the change ft2 makes to its own start, applied to ft[1]
+            std::string t = ft[1];
+            int changed = 0;
+            for (int comp = 0; comp < 3; ++comp) if (ft2[1][comp] != ft2[0][comp]) { t[comp] = ft2[1][comp]; ++changed; }
+            if (ft2[0] != "aaa" || changed != 1 || (!th && t == ft[1])) continue;
+            add("C" + t, step("Caaa", -1, true) + ">" + step("C" + ft[1], -1, true));
+            if (th) add("C" + t, step("Caaa", -1, false) + ">" + step("C" + ft[1], -1, false));
+          }
+      }
+  // ---- chains of two: first member changed, second member changed, both, none; re-set-up through the chain / on the members
+  std::vector<Fam> ck;
+  ck.push_back({ "P", { "0", "i" } });
+  ck.push_back({ "W", { "1", "0" } });
+  if (tof) ck.push_back({ "Q", { "1", "i" } });
+  if (!tof) ck.push_back({ "A", { "1", "1" } });
+  if (comp_ok) ck.push_back({ "C", { "e", "1" } });
+  ck.push_back({ "T", { "", "" } });
+  std::vector<std::array<std::string, 2>> chain_changes; // (from, to) of chains, reused for the triples
+  for (const Fam& x : ck)
+    for (const Fam& y : ck)
+      {
+        if (x.kind == y.kind && x.kind != "P") continue;
+        const std::string s0 = "(" + x.kind + x.args[0] + "," + y.kind + y.args[0] + ")";
+        std::vector<std::string> finals = { s0 };
+        if (x.args[1] != x.args[0]) finals.push_back("(" + x.kind + x.args[1] + "," + y.kind + y.args[0] + ")");
+        if (y.args[1] != y.args[0]) finals.push_back("(" + x.kind + x.args[0] + "," + y.kind + y.args[1] + ")");
+        if (x.args[1] != x.args[0] && y.args[1] != y.args[0]) finals.push_back("(" + x.kind + x.args[1] + "," + y.kind + y.args[1] + ")");
+        for (const std::string& fin : finals)
+          {
+            add(fin, step(s0, -1, true));
+            add(fin, step(s0, -1, true, true));
+            if (th || fin == finals.back()) { add(fin, step(s0, -1, false)); add(fin, step(s0, -1, false, true)); }
+            if (th || fin == finals.front()) // quick: other geometry / exam info with unchanged members only (a changed member: leaves above)
+              for (int k : alts) add(fin, step(s0, k, true));
+            if (fin != s0) chain_changes.push_back({ s0, fin });
+          }
+      }
+  // ---- chains of three (thorough): a chain of two with a changed member inside / beside a third member
+  if (th)
+    for (auto& cc : chain_changes)
+      for (const Fam& z : ck)
+        {
+          if (cc[0].find(z.kind) != std::string::npos || z.kind == "T") continue;
+          const std::string zl = z.kind + z.args[0];
+          add("(" + cc[1] + "," + zl + ")", step("(" + cc[0] + "," + zl + ")", -1, true));
+          add("(" + zl + "," + cc[1] + ")", step("(" + zl + "," + cc[0] + ")", -1, true));
+          add("(" + zl + "," + cc[1] + ")", step("(" + zl + "," + cc[0] + ")", -1, true, true));
+        }
+}
+
 int main(int argc, char** argv)
 {
   vmc::Ctx ctx(argc, argv, "C13");
   small::quiet();
   ctx.rule = "one unit = (geometry, symmetry object, normalisation object); the real object is called on the whole ProjData and on every related-viewgram group x TOF bin with all-ones, labelling and (sweep) every "
-             "unit-bin data set, undo/apply/both round trips; one evaluation = one such call sequence over all bins; non-trivial = unit accepted by STIR whose reference efficiencies are not all 1";
+             "unit-bin data set, undo/apply/both round trips; one evaluation = one such call sequence over all bins; non-trivial = unit accepted by STIR whose reference efficiencies are not all 1; "
+             "history units: the object was built with other factors, set up (also with another sampling / exam info) and used or not, its factors were then changed in place through the public accessors "
+             "(no new allocate()/object) and set_up was called again (through the chain or on its members) - all histories with 1 (components, thorough: all kinds: 2) earlier states over the factor alphabets "
+             "{labelling A, all ones, labelling B, dead crystal} x which component table x {no use, use in between} are enumerated and must behave like a freshly built object with the current factors";
   ctx.assume("reference efficiencies: 1/factor (from projection data), exp(-sum_j P_bj mu_j voxel_size_x/10) with P = STIR's own ray tracing matrix with all symmetries off and no cache (attenuation, mu in cm^-1), "
              "product of the two crystal efficiencies (components, efficiencies only), table/(calibration*branching ratio), product over chain members");
   ctx.assume("tolerance of undo(1) against the reference: (4*members+4)*eps_float relative, plus for attenuation expm1(voxel_x/10*(100*delta*row maximum*sum(mu)) + 200 eps*line integral) with delta the C03 "
@@ -412,10 +768,13 @@ int main(int argc, char** argv)
   ctx.assume("components with geometric/block factors: no independent model here (C20), the efficiency the object reports is the reference; uniform-mu analytic chord tie: exp(-mu*(chord+2 voxel diagonals)/10) <= eff <= exp(-mu*chord/10) for direct bins");
   ctx.assume("round trips and apply are only checked where the efficiency is non-zero; calls rejected by STIR with error() (e.g. attenuation projector with other symmetries than the viewgrams) are counted, not failures; "
              "use before set_up is recorded as an observation only (the statement is silent)");
+  ctx.assume("histories: a re-set-up object is compared with the reference of its CURRENT factors (same tolerances) and with a freshly built object (2*(4*members+4)*eps_float relative, attenuation + 2e-5 for another summation "
+             "order of cached rows); a use after a REJECTED earlier set_up is never made; a history object accepting what a fresh object rejects is an observation only");
   if (ctx.replaying())
     {
       auto m = vmc::kv(ctx.replay);
       Case c; c.g = Geo::parse(m); c.sy = atoi(m["sy"].c_str()); c.spec = m["norm"]; c.sweep = atoi(m["sweep"].c_str());
+      if (m.count("hist")) c.hist = m["hist"];
       run_case(ctx, c);
       return ctx.finish();
     }
@@ -449,6 +808,22 @@ int main(int argc, char** argv)
             if (!ctx.mine(unit++)) continue;
             if (ctx.expired()) return ctx.finish();
             Case c; c.g = g; c.sy = sy; c.spec = s.first; c.sweep = s.second;
+            run_case(ctx, c);
+            ctx.count("units");
+          }
+      }
+  // histories of objects (after all objects built once, so that the first case of a key is a simple one)
+  for (const Geo& g : geos)
+    for (int sy : { 0, 8, 16 })
+      {
+        if (sy == 16 && !th) continue;
+        std::vector<std::array<std::string, 2>> hs;
+        hist_specs_for(g, sy, th, hs);
+        for (auto& h : hs)
+          {
+            if (!ctx.mine(unit++)) continue;
+            if (ctx.expired()) return ctx.finish();
+            Case c; c.g = g; c.sy = sy; c.spec = h[0]; c.sweep = 0; c.hist = h[1];
             run_case(ctx, c);
             ctx.count("units");
           }
